@@ -19,6 +19,23 @@ namespace C02Fanout
 def layerOf : String → Option Layer
   | "ms" => some .multiSpan
   | "tp" => some .tracerProvider
+  -- how the provider is built (vector / single-processor + AddProcessor / default constructor / from a context / views):
+  -- all of them must be the same provider
+  | "tpv" => some .tracerProvider
+  | "tpp" => some .tracerProvider
+  | "lpv" => some .loggerProvider
+  | "lpp" => some .loggerProvider
+  | "lpd" => some .loggerProvider
+  | "mpc" => some .meterProvider
+  | "mpv" => some .meterProvider
+  -- … and through the factories (f: the provider's / multi processor's factory, g: over the context's factory)
+  | "tpf" => some .tracerProvider
+  | "tpg" => some .tracerProvider
+  | "lpf" => some .loggerProvider
+  | "lpg" => some .loggerProvider
+  | "mpf" => some .meterProvider
+  | "mpg" => some .meterProvider
+  | "mlf" => some .multiLog
   | "ml" => some .multiLog
   | "lp" => some .loggerProvider
   | "mp" => some .meterProvider
